@@ -168,6 +168,23 @@ fn apply(st: &mut State, step: &Step, counts: &mut Vec<&'static str>) -> Result<
             st.slots[b] = Some(Slot { v, model: src.model.clone(), made_by: "Clone" });
             Ok(format!("Clone {}->{}", a, b))
         }
+        "CloneFrom" => {
+            // overwrite a live value with a copy of another (Clone::clone_from, what
+            // Vec<ReprCString>::clone_from does element by element)
+            let (a, b) = (sl(step.arg(0)), sl(step.arg(1)));
+            if a == b || st.slots[a].is_none() || st.slots[b].is_none() {
+                return Ok("CloneFrom noop".into());
+            }
+            let src = st.slots[a].take().unwrap();
+            let dst = st.slots[b].as_mut().unwrap();
+            track(|| dst.v.clone_from(&src.v));
+            dst.model = src.model.clone();
+            dst.made_by = "Clone::clone_from";
+            let aliased = ptr_of(&dst.v) == ptr_of(&src.v);
+            st.slots[a] = Some(src);
+            vcheck!(!aliased, "cstr.clone_aliases", "Clone::clone_from", "the overwritten value shares the buffer of its source");
+            Ok(format!("CloneFrom {}->{}", a, b))
+        }
         "Eq" => {
             let (a, b) = (sl(step.arg(0)), sl(step.arg(1)));
             let (Some(x), Some(y)) = (st.slots[a].as_ref(), st.slots[b].as_ref()) else { return Ok("Eq noop".into()) };
@@ -239,7 +256,7 @@ fn state_hash(st: &State) -> u64 {
     hh.0
 }
 
-const OPS: [&str; 10] = ["FromStr", "FromString", "FromBytes", "Clone", "Eq", "Hash", "Fmt", "FromCStr", "Drop", "Drop"];
+const OPS: [&str; 11] = ["FromStr", "FromString", "FromBytes", "Clone", "Eq", "Hash", "Fmt", "FromCStr", "Drop", "Drop", "CloneFrom"];
 
 impl Engine for CStrEngine {
     fn name(&self) -> &'static str {
@@ -253,7 +270,7 @@ impl Engine for CStrEngine {
         p.set("pool", pool);
         p.set("threads", threads);
         let max_steps = if rng.chance(1, 2) { rng.range(2, 8) } else { rng.range(8, 30) };
-        let mut w: Vec<u32> = vec![10, 6, 8, 6, 6, 4, 3, 2, 8, 4];
+        let mut w: Vec<u32> = vec![10, 6, 8, 6, 6, 4, 3, 2, 8, 4, 5];
         for i in 0..w.len() {
             if rng.chance(1, 6) {
                 w[i] = 0;
@@ -272,7 +289,7 @@ impl Engine for CStrEngine {
                     let len = *rng.pick(&[0, 1, 2, 3, 7, 8, 15, 16, 24]);
                     p.push(t, op, &[s0, rng.range(0, 5), len, rng.range(0, 1000)]);
                 }
-                "Clone" | "Eq" => p.push(t, op, &[s0, s1]),
+                "Clone" | "Eq" | "CloneFrom" => p.push(t, op, &[s0, s1]),
                 "FromCStr" => p.push(t, op, &[0, rng.range(0, 24), rng.range(0, 1000)]),
                 _ => p.push(t, op, &[s0]),
             }
